@@ -10,6 +10,7 @@ import (
 	"fmt"
 	"reflect"
 	"sync"
+	"time"
 
 	"berty.tech/go-ipfs-log/entry"
 	idp "berty.tech/go-ipfs-log/identityprovider"
@@ -168,6 +169,8 @@ type Blocks struct {
 	// Hang lists hashes whose fetch never completes (unreachable provider): Read
 	// blocks until its context ends, as a real bitswap request does.
 	Hang map[string]bool
+	// Late lists hashes whose provider answers only after the given delay.
+	Late map[string]time.Duration
 	// OnRead, if set, is called at the start of every Read with the running read count (fault injection).
 	OnRead func(n int, hash string)
 	// Peers are block stores of connected peers: a block missing locally is
@@ -193,7 +196,7 @@ func (b *Blocks) Keys() []string {
 }
 
 func NewBlocks(log *EffectLog) *Blocks {
-	return &Blocks{objs: map[string]interface{}{}, Log: log, Missing: map[string]bool{}, Hang: map[string]bool{}}
+	return &Blocks{objs: map[string]interface{}{}, Log: log, Missing: map[string]bool{}, Hang: map[string]bool{}, Late: map[string]time.Duration{}}
 }
 
 func (b *Blocks) Has(c cid.Cid) bool {
@@ -336,6 +339,22 @@ func (io *IO) Read(ctx context.Context, ipfs coreiface.CoreAPI, c cid.Cid) (form
 	if hang {
 		<-ctx.Done()
 		return nil, ctx.Err()
+	}
+	io.B.mu.Lock()
+	late := io.B.Late[BlockKey(c)]
+	io.B.mu.Unlock()
+	if late > 0 {
+		// a slow provider: the block is answered after a while (virtual time under
+		// the interpreter), unless the reader gives up first
+		select {
+		case <-time.After(late):
+			// answered: from now on the block is available at once
+			io.B.mu.Lock()
+			delete(io.B.Late, BlockKey(c))
+			io.B.mu.Unlock()
+		case <-ctx.Done():
+			return nil, ctx.Err()
+		}
 	}
 	io.B.mu.Lock()
 	obj, ok := io.B.objs[BlockKey(c)]
